@@ -7,7 +7,7 @@ import Hifi.Lemmas.EfmtBack
   given format terminates and returns either a value or an error: it never panics, overflows,
   indexes out of bounds or loops forever."
 
-  The model (`Hifi/Model/Efmt.lean`) transcribes the code after the repairs c5931b6, 77ab25e, c137eb9;
+  The model (`Hifi/Model/Efmt.lean`) transcribes the current code (`src/efmt/*`);
   every Rust operation that can panic is an explicit `panic` outcome of the model: the array index
   `self.items[cur_item_idx]`, the three `str` slices (begin ≤ end ≤ len on char boundaries — they are
   `get(..)` + `Err` since c5931b6), the i32 product of the sub-second scaling, the `try_into().unwrap()`
@@ -96,6 +96,40 @@ theorem repaired_panics_are_errors :
     formatParse O0 (fmtOf "%Y-%m-%d %H:%M:%S.%f %Y-%m-%d %H:%M:%S.%f %Y-%m")
       (Cal.strCodes "2015-02-07 11:22:33.000000001 2015-02-07 11:22:33.000000001 2015-02x") ≠ .panic := by
   decide +kernel
+
+/-- a day of year names ONE date (fixes D46, D47): a month / day of the month written next to it must be the ones of
+    that day of the year; the time of day — a second 60 included — is valid or not on THAT date and is counted as
+    without `%j`; the weekday is compared with that date.  A final field of one character is read (fix D48).
+    Decided instances — tests of the model, labelled as such. -/
+theorem day_of_year_names_one_date :
+    formatParse O0 (fmtOf "%Y-%m-%d %j") (Cal.strCodes "2015-06-30 001") = .err ∧
+    formatParse O0 (fmtOf "%Y-%m-%d %j") (Cal.strCodes "2015-06-30 181") =
+      formatParse O0 (fmtOf "%Y-%m-%d") (Cal.strCodes "2015-06-30") ∧
+    formatParse O0 (fmtOf "%Y-%j %B") (Cal.strCodes "2015-181 July") = .err ∧
+    formatParse O0 (fmtOf "%Y-%j %H:%M:%S") (Cal.strCodes "2012-182 23:59:60") =
+      formatParse O0 (fmtOf "%Y-%m-%d %H:%M:%S") (Cal.strCodes "2012-06-30 23:59:60") ∧
+    formatParse O0 (fmtOf "%Y-%j %H:%M:%S") (Cal.strCodes "2012-182 23:59:60") ≠ .err ∧
+    formatParse O0 (fmtOf "%Y-%j %H:%M:%S") (Cal.strCodes "2012-365 23:59:60") = .err ∧
+    formatParse O0 (fmtOf "%Y-%j %H:%M:%S %a") (Cal.strCodes "2016-366 23:59:60 Sun") = .err ∧
+    formatParse O0 (fmtOf "%Y-%j %H:%M:%S %a") (Cal.strCodes "2016-366 23:59:60 Sat") =
+      formatParse O0 (fmtOf "%Y-%m-%d %H:%M:%S") (Cal.strCodes "2016-12-31 23:59:60") ∧
+    formatParse O0 (fmtOf "%Y-%m-%d %H") (Cal.strCodes "2015-02-07 5") =
+      formatParse O0 (fmtOf "%Y-%m-%d %H") (Cal.strCodes "2015-02-07 05") ∧
+    formatParse O0 (fmtOf "%Y-%m-%d %H") (Cal.strCodes "2015-02-07 5") ≠
+      formatParse O0 (fmtOf "%Y-%m-%d %H") (Cal.strCodes "2015-02-07 00") ∧
+    formatParse O0 (fmtOf "%Y-%j") (Cal.strCodes "2015-7") = formatParse O0 (fmtOf "%Y-%j") (Cal.strCodes "2015-007") := by
+  decide +kernel
+
+/-- the date the day-of-year arm of `Format::parse` derives (fix D46) is THE date of that day of the year: for every
+    year and every day of year `n` within that year, with the leap-year test the code uses, the derived month and day
+    are a valid date of the specification calendar whose day number is that of 1 January plus `n − 1` -/
+theorem day_of_year_is_that_date (y n : Int) (h1 : 1 ≤ n) (h2 : n ≤ (if Spec.isLeap y = true then 366 else 365)) :
+    Spec.validDate ⟨y, (ordinalGo (Cal.isGregorianValidCore y 2 29 0 0 0 0) 16 1 n).1,
+      (ordinalGo (Cal.isGregorianValidCore y 2 29 0 0 0 0) 16 1 n).2⟩ = true ∧
+    Spec.dayNumber ⟨y, (ordinalGo (Cal.isGregorianValidCore y 2 29 0 0 0 0) 16 1 n).1,
+      (ordinalGo (Cal.isGregorianValidCore y 2 29 0 0 0 0) 16 1 n).2⟩ = Spec.dayNumber ⟨y, 1, 1⟩ + n - 1 := by
+  rw [leapTest_eq]
+  exact ordinal_date_spec y n h1 h2
 
 /-! ### accept / reject through `Format::parse`: universal over the numeric class of formats
 
